@@ -8,15 +8,15 @@
   `contentBetween_structural'` (Proofs/Respects.lean); the loop invariants are built on its lemmas.
 -/
 import Proofs.Respects
+import Proofs.ContentBetween
 namespace PM
 
 def Tok.isCl : Tok → Bool
   | .cl => true
   | _ => false
 
-def Tok.isOp : Tok → Bool
-  | .op .. => true
-  | _ => false
+-- `Tok.isOp` is defined in Proofs/ContentBetween.lean (imported; the two files are used together since Props/C01 needs
+-- Proofs/InsertAtValid.lean)
 
 /-- close tokens, then open tokens, nothing else -/
 def closesThenOpens (l : List Tok) : Bool := (l.dropWhile Tok.isCl).all Tok.isOp
